@@ -634,6 +634,9 @@ func (rc *RunCtx) finish(c *Check) int {
 	if _, ok := cov["traces_validated_against_impl"]; !ok {
 		cov["traces_validated_against_impl"] = cov["transitions"]
 	}
+	if rc.samples == nil {
+		rc.samples = []any{}
+	}
 	cov["samples"] = rc.samples
 	cov["exhaustive"] = rc.exhaustive
 	if len(rc.capped) > 0 {
